@@ -21,7 +21,8 @@ LEVEL_TEXT = ('Kernel-checked theorems (Props/C17.v) about CHECKED twins of the 
               'structurally valid CSR matrix (any size; empty rows, missing or zero diagonals, unsorted / repeated columns) '
               'and every list of rows inside [0,n) -- in particular the forward and backward sweep ranges the callers pass -- '
               'the checked gauss_seidel, sor_gauss_seidel and jacobi never leave their arrays and return exactly what the '
-              'bit-exact kernel models of C09 return; for the Ruge-Stuben first pass (lambda buckets sized '
+              'bit-exact kernel models of C09 return; for standard and naive aggregation (the -n sentinel arithmetic) the '
+              'same holds on all symmetric graphs on <= 4 vertices with and without stored diagonal; for the Ruge-Stuben first pass (lambda buckets sized '
               'max(2*lambda_max, n+1), the "//invalid write!" site) the same holds on all 133 strength patterns (directed on '
               '<= 3 vertices, symmetric on 4) and all influence vectors in {0,1,3}^n (bound stated in the theorem, decided by '
               'vm_compute over the complete enumeration).  The twins are tied to the working-tree kernels on both sides: on '
@@ -31,7 +32,7 @@ LEVEL_TEXT = ('Kernel-checked theorems (Props/C17.v) about CHECKED twins of the 
               'headers under AddressSanitizer + UndefinedBehaviorSanitizer + LeakSanitizer, through the Python callers (so '
               'every buffer is sized as they size it), over the complete enumeration of small graphs and structured random '
               'CSR/BSR inputs, each run under a time limit.')
-LEVEL_NOTE = ('Proof covers 4 of 66 kernels (3 unbounded, 1 bounded).  For the other 62 the sanitizer run is an oracle, not a '
+LEVEL_NOTE = ('Proof covers 6 of 66 kernels (3 unbounded, 3 bounded).  For the other 60 the sanitizer run is an oracle, not a '
               'proof; it is the search that produces failing inputs.  Memory safety of the C++ text itself is never proved: '
               'the theorems are about Gallina twins tied to the code by correspondence.  Lloyd clustering is exercised with '
               'positive weights only (its documented domain): zero-weight edges lead to duplicate centres and a heap '
@@ -44,7 +45,8 @@ RULE = ('sanitizer run: complete enumeration of symmetric graphs on 1..4 (5 thor
         'sanitizers + checked-twin cases; distinct = distinct (kernel, input matrix) pairs')
 TRUSTED = ['GCC 12 AddressSanitizer / UndefinedBehaviorSanitizer / LeakSanitizer runtimes (oracle side)',
            'NumPy allocates each array with malloc of its exact byte size (so the red zones start at the array ends)']
-PARTIAL = ['62 of 66 kernels: sanitizer oracle only, no theorem',
+PARTIAL = ['60 of 66 kernels: sanitizer oracle only, no theorem',
+           'standard_aggregation, naive_aggregation: bounded theorems (all symmetric graphs <= 4 vertices)',
            'rs_cf_splitting: bounded theorem (133 patterns x 3^n influence vectors)',
            'termination: time limit per run, plus structural recursion of the models; no termination theorem for the C++ loops']
 REFUTED = []
@@ -306,6 +308,35 @@ def twin_rs(ctx):
     ctx.corr_relations.append('checked rs_cf_splitting twin == working-tree kernel on every small pattern x influence')
 
 
+def twin_agg(ctx):
+    """standard / naive aggregation: checked twin == kernel on every small symmetric graph"""
+    from pyamg import amg_core
+    cases = []
+    nmax = 5 if ctx.thorough else 4
+    gi = 0
+    for n in range(1, nmax + 1):
+        for edges in gen.all_sym_graphs(n):
+            for diag in (False, True):
+                G = gen.graph_csr(n, edges, diag=diag)
+                Ap, Aj = G.indptr.astype(I32), G.indices.astype(I32)
+                for kind, f in ((0, amg_core.standard_aggregation), (1, amg_core.naive_aggregation)):
+                    x = np.full(n, -9, dtype=I32)
+                    y = np.full(n, -7, dtype=I32)
+                    c = f(n, Ap, Aj, x, y)
+                    cases.append('(%d%%nat, %s, %s, Some (%s, %s, %s))' % (
+                        kind, cq.z(n), cq.lst([cq.zl(Ap), cq.zl(Aj), cq.zl([-7] * n)]), cq.zl(x), cq.zl(y), cq.z(int(c))))
+                    ctx.case(('agg', gi, kind), nontrivial=len(edges) > 0)
+                gi += 1
+    bad, errs = cq.run_cases('c17_agg', HEADER, '(nat * Z * list (list Z) * option (list Z * list Z * Z))%type',
+                             'agg_chk_case', cases)
+    for e in errs:
+        ctx.disagree('C17 aggregation twin evaluation', None, e, None)
+    for i in bad:
+        ctx.disagree('checked aggregation twin = kernel (all symmetric graphs)', dict(index=i), '?', cases[i][:600])
+    ctx.count('twin/agg_cases', len(cases))
+    ctx.corr_relations.append('checked standard/naive aggregation twins == working-tree kernels on every small symmetric graph')
+
+
 def twin_malformed(ctx, asan_dir):
     """indices one step outside an array: the twin must say None exactly where ASan stops the kernel"""
     n = 3
@@ -367,6 +398,7 @@ def run(ctx):
         return
     twin_valid(ctx)
     twin_rs(ctx)
+    twin_agg(ctx)
     twin_malformed(ctx, asan_dir)
     san_corpus(ctx, asan_dir)
 
